@@ -74,6 +74,8 @@ def shards(pid, tier, seed):
 # ----------------------------------------------------------------------------- generator
 def gen_case(rng, pid, uid):
     n = rng.choice([0, 1, 2, 2, 3, 3, 4, 5]) if pid not in ("C10",) else rng.choice([2, 2, 3, 4])
+    if rng.random() < 0.01:
+        n = rng.choice([11, 13])          # a big robot: more than ten components
     cnames = [f"c{i}{uid}" for i in range(n)]
     rng.shuffle(cnames)
     levels = rng.choice([1, 1, 2, 3])
@@ -109,8 +111,8 @@ def gen_case(rng, pid, uid):
             if rng.random() < 0.3:
                 sn["shadowed_marker_default"] = rng.choice([0, "base", False])
             c["sentinels"].append(sn)
-        for j in range(3):
-            if rng.random() < p_fb:
+        for j in range(3 if rng.random() > 0.004 else 40):       # (rarely: dozens of feedback getters on one component)
+            if rng.random() < p_fb or j >= 3:
                 c["feedbacks"].append(_gen_fb(rng, fbnames, j, uid))
         for other in cnames:
             if other != cn and rng.random() < 0.25:
@@ -178,11 +180,11 @@ def gen_case(rng, pid, uid):
     hist = []
     last = None
     total = 0
-    for _ in range(rng.choice([3, 4, 5, 6, 9])):
+    for _ in range(rng.choice([3, 4, 5, 6, 9]) if rng.random() > 0.01 else 45):       # (rarely: dozens of mode changes)
         m = rng.choice([x for x in MODES if x != last])
         dw = rng.choice([1, 1, 2, 3, 5, 8, 25]) if pid != "C07" else rng.choice([1, 2, 6, 8, 12])
         if rng.random() < 0.004:
-            dw = 400            # a long stay in one mode (hundreds of iterations)
+            dw = 650            # a long stay in one mode (hundreds of iterations)
         hist.append([m, dw])
         total += dw
         last = m
@@ -192,7 +194,7 @@ def gen_case(rng, pid, uid):
             "history": hist, "disabled_flags": dflags, "super_robot_periodic": rng.random() < 0.3, "plan": {}}
     spec["period_on_instance"] = rng.random() < 0.2
     if rng.random() < 0.04:
-        spec["uptime_us"] = rng.choice([2 ** 31, 2 ** 32, 10 ** 10, 9 * 10 ** 10])       # the robot has been up for hours
+        spec["uptime_us"] = rng.choice([2 ** 31, 2 ** 32, 10 ** 10, 9 * 10 ** 10, 2 * 10 ** 11])       # the robot has been up for hours
     spec["teleop_in_auto_as_int"] = rng.random() < 0.3
     if rng.random() < (0.4 if pid == "C07" else 0.1):
         # some periodic methods wrap their body in `with self.consumeExceptions():` and carry on after the block
@@ -1048,7 +1050,13 @@ def run_case(spec, acc):
         V.ev("robot-without-some-mode-hooks")
     if spec.get("uptime_us"):
         V.ev("fpga-time-of-hours")
-    if any(dw_ >= 400 for _m, dw_ in spec["history"]):
+    if len(spec["history"]) >= 40:
+        V.ev("dozens-of-mode-changes")
+    if len(spec["components"]) > 10:
+        V.ev("more-than-ten-components")
+    if any(len(c["feedbacks"]) > 32 for c in spec["components"].values()):
+        V.ev("dozens-of-feedbacks-on-one-component")
+    if any(dw_ >= 600 for _m, dw_ in spec["history"]):
         V.ev("hundreds-of-iterations-in-one-mode")
     if spec.get("consume_hooks"):
         V.ev("periodic-method-uses-consumeExceptions")
